@@ -25,17 +25,35 @@ class Drivers:
             if fn.endswith(".py"):
                 shutil.copyfile(os.path.join(src, fn), os.path.join(d, "rt", fn))
         open(os.path.join(d, "rt", "__init__.py"), "w").close()
-        self.cpp = subprocess.Popen([exe], stdin=subprocess.PIPE, stdout=subprocess.PIPE)
-        self.py = subprocess.Popen(["python3-vt", os.path.join(vlib.HARNESS, "py", "pystreamdrv.py"), d],
-                                   stdin=subprocess.PIPE, stdout=subprocess.PIPE)
+        self.exe, self.dir = exe, d
+        self.cpp = self._start("cpp")
+        self.py = self._start("py")
+
+    def _start(self, which):
+        if which == "cpp":
+            return subprocess.Popen([self.exe], stdin=subprocess.PIPE, stdout=subprocess.PIPE, stderr=subprocess.DEVNULL)
+        return subprocess.Popen(["python3-vt", os.path.join(vlib.HARNESS, "py", "pystreamdrv.py"), self.dir],
+                                stdin=subprocess.PIPE, stdout=subprocess.PIPE)
 
     def ask(self, which, line):
         p = self.cpp if which == "cpp" else self.py
-        p.stdin.write((line + "\n").encode())
-        p.stdin.flush()
-        r = p.stdout.readline()
+        try:
+            p.stdin.write((line + "\n").encode())
+            p.stdin.flush()
+            r = p.stdout.readline()
+        except (BrokenPipeError, OSError):
+            r = b""
         if not r:
-            raise RuntimeError(f"{which} stream driver died on: {line[:200]}")
+            # the runtime crashed (e.g. out-of-bounds access) on this request: restart, report CRASH
+            try:
+                p.kill()
+            except Exception:
+                pass
+            if which == "cpp":
+                self.cpp = self._start("cpp")
+            else:
+                self.py = self._start("py")
+            return "CRASH"
         return r.decode().strip()
 
     def close(self):
@@ -139,7 +157,11 @@ def reader_corr(report, drv, lean, rng, caps, n_seqs, maxlen, on_mismatch, trunc
                 continue
             data = lean.ask({"op": "cos", "lang": "cpp", "cap": 64, "ops": wops})["hex"]
             rops, exp = read_ops_for(wops)
-            cuts = [len(data) // 2] + (sorted(set(rng.randrange(0, len(data) // 2) for _ in range(6))) if truncate and data else [])
+            n = len(data) // 2
+            if truncate == "all":
+                cuts = list(range(0, n + 1))
+            else:
+                cuts = [n] + (sorted(set(rng.randrange(0, n) for _ in range(6))) if truncate and data else [])
             for cut in cuts:
                 h = data[:2 * cut]
                 full = cut == len(data) // 2
